@@ -1,10 +1,10 @@
 SPECIFICATION Spec
 CONSTANTS
   MaxFlow = 0
-  MaxOuts = 4
-  MaxPuts = 1
-  MaxReconf = 0
-  Tier = "hub"
+  MaxOuts = 3
+  MaxPuts = 2
+  MaxReconf = 1
+  Tier = "reconfhub"
 CONSTRAINT Emit
 INVARIANT HubAllButSender
 INVARIANT HubThroughPort
